@@ -121,9 +121,25 @@ Definition bound_eqb (a b : bound_src) : bool :=
   | _, _ => false
   end.
 
+Definition init_eqb (a b : init_src) : bool :=
+  match a, b with
+  | InitScaleHitScore, InitScaleHitScore | InitScaleThreshold, InitScaleThreshold => true
+  | _, _ => false
+  end.
+Definition idx_eqb (a b : idx_expr) : bool :=
+  Bool.eqb (ix_col_rows a) (ix_col_rows b) && Bool.eqb (ix_block_row a) (ix_block_row b) &&
+  Bool.eqb (ix_r a) (ix_r b).
+
+Lemma idx_eqb_eq a b : idx_eqb a b = true -> a = b.
+Proof.
+  destruct a as [a1 a2 a3], b as [b1 b2 b3]. unfold idx_eqb. simpl.
+  destruct a1, a2, a3, b1, b2, b3; simpl; intros E; try discriminate E; reflexivity.
+Qed.
+
 Definition shape_eqb (a b : shape) : bool :=
   Bool.eqb (n_loop_hits_empty a) (n_loop_hits_empty b) && cmp_eqb (n_loop_cmp a) (n_loop_cmp b) &&
   end_eqb (n_end a) (n_end b) && cmp_eqb (n_gate_cmp a) (n_gate_cmp b) &&
+  idx_eqb (n_idx a) (n_idx b) && idx_eqb (m_idx a) (m_idx b) && init_eqb (m_init a) (m_init b) &&
   cmp_eqb (n_pad_cmp a) (n_pad_cmp b) && pad_eqb (n_pad_action a) (n_pad_action b) &&
   cmp_eqb (n_thr_cmp a) (n_thr_cmp b) && order_eqb (n_order a) (n_order b) &&
   cmp_eqb (m_filter_cmp a) (m_filter_cmp b) && cmp_eqb (m_loop_cmp a) (m_loop_cmp b) &&
@@ -144,5 +160,7 @@ Proof.
   | E : end_eqb ?x ?y = true |- _ => destruct x, y; try discriminate E; clear E
   | E : order_eqb ?x ?y = true |- _ => destruct x, y; try discriminate E; clear E
   | E : bound_eqb ?x ?y = true |- _ => destruct x, y; try discriminate E; clear E
+  | E : init_eqb ?x ?y = true |- _ => destruct x, y; try discriminate E; clear E
+  | E : idx_eqb _ _ = true |- _ => apply idx_eqb_eq in E
   end; subst; reflexivity.
 Qed.
